@@ -87,6 +87,11 @@ func corpus(w *lib.Writer) {
 		runStack(w, StackIn{Kind: "auto", Size: 64, Ops: ops}, "corpus/C12-2")
 		runStack(w, StackIn{Kind: "fixed", Size: 64, Ops: ops}, "corpus/C12-2")
 	}
+	// hunt obs-1: more than 65536 segments (CallStackSize above 524288 under MinimizeStackMemory)
+	for _, size := range []int{524289, 524296, 600000} {
+		ops := append(push(20), SOp{K: "sp"}, SOp{K: "full"}, SOp{K: "at", A: 17}, SOp{K: "setsp", A: 16}, SOp{K: "last"}, SOp{K: "pop"}, SOp{K: "sp"})
+		runStack(w, StackIn{Kind: "auto", Size: size, Ops: ops}, "corpus/segidx16")
+	}
 	// SetSp(8k) from above keeps segment k; then Pop frees it
 	{
 		ops := append(push(19), SOp{K: "setsp", A: 16}, SOp{K: "sp"}, SOp{K: "last"}, SOp{K: "pop"}, SOp{K: "sp"}, SOp{K: "push", A: 7}, SOp{K: "push", A: 8}, SOp{K: "last"}, SOp{K: "setsp", A: 0}, SOp{K: "empty"}, SOp{K: "last"})
